@@ -6,7 +6,7 @@ CONSTANTS
   Period = 2
   Starts = {1}
   Timeouts = {3}
-  MinActs = {0, 5}
+  MinActs = {0}
   Thresholds <- Thr34
   Coded = FALSE
   Queries = TRUE
